@@ -223,6 +223,10 @@ class Ctx:
                "known_findings_hit": {k: v[0] for k, v in self.kf_hits.items()},
                "action_coverage": {a: t for a, (d, t) in sorted(self.coverage_actions.items())}}
         cov.update(self.notes)
+        if self.drift and "model_drift" not in cov:
+            cov["model_drift"] = {m: {"cases": len(v), "samples": [w for _, w in v[:3]]} for m, v in self.drift.items()}
+            for m, v in sorted(self.drift.items()):
+                print("NOTE: %s: %d cases differ from what the library does today (not a verdict): %s" % (m, len(v), str(v[0][1])[:160]))
         ev = {"property_id": self.pid, "tier": self.tier, "seed": self.seed, "level": self.level,
               "coverage": cov, "assumptions": self.assumptions, "wall_s": round(wall, 2), "violations": nviol}
         os.makedirs(os.path.join(common.OUT, "evidence"), exist_ok=True)
